@@ -38,7 +38,7 @@ ClassSeq == <<"batch", "buf",
               "op", "op", "op", "op", "op", "op", "op", "op", "op", "op",
               "sbop", "sbop", "sbop", "sbop", "sbop",
               "consume", "consume", "commit", "commit", "drop", "dropbuf",
-              "get", "get", "scan", "scan", "iter", "drain", "drain", "reopen">>
+              "get", "get", "scan", "scan", "iter", "drain", "drain", "reopen", "coldopen">>
 
 (* deletes only of cells / members some earlier op (committed or not) wrote *)
 Touched(o) == \E i \in 1..Len(hist) :
@@ -62,6 +62,7 @@ EnabledClass(c) ==
       [] c = "iter" -> SetIds # {} /\ \E i \in 1..MaxIters : iters[i].st = "free"
       [] c = "drain" -> \E i \in 1..MaxIters : iters[i].st = "open"
       [] c = "reopen" -> TRUE
+      [] c = "coldopen" -> TRUE
 
 Dump(w, s) ==
     [wide |-> {[c |-> x[1], key |-> x[2], vt |-> x[3], val |-> w[x]] :
@@ -115,12 +116,12 @@ Act ==
        /\ \E s \in 1..MaxBufs : DropBuf(s) /\ Rec([a |-> "dropbuf", h |-> s])
     \/ /\ cls = "get"
        /\ \E c \in WCols, key \in Keys, vt \in VTypes :
-             /\ UNCHANGED vars
+             /\ Get(c)
              /\ Rec([a |-> "get", c |-> c, key |-> key, vt |-> vt,
                      exp |-> GetResult(c, key, vt)])
     \/ /\ cls = "scan"
        /\ \E c \in SCols, key \in Keys :
-             /\ UNCHANGED vars
+             /\ Scan(c)
              /\ Rec([a |-> "scan", c |-> c, key |-> key, exp |-> ScanResult(c, key)])
     \/ /\ cls = "iter"
        /\ \E i \in 1..MaxIters, c \in SCols, key \in Keys :
@@ -132,6 +133,10 @@ Act ==
                      must |-> iters[i].must, may |-> iters[i].may])
     \/ /\ cls = "reopen"
        /\ Reopen /\ Rec([a |-> "reopen", state |-> Dump(wide, sets)])
+    \* close and open WITHOUT the harness reading anything afterwards: the
+    \* next event is the first touch of its column in the new session
+    \/ /\ cls = "coldopen"
+       /\ Reopen /\ Rec([a |-> "reopen", q |-> TRUE, state |-> Dump(wide, sets)])
 
 Emit ==
     /\ cls = "pick" /\ steps = MaxSteps /\ ~done
@@ -144,4 +149,149 @@ Emit ==
 GNext == Pick \/ Act \/ Emit
 
 GenSpec == GInit /\ [][GNext]_gvars
+
+----------------------------------------------------------------------------
+(***************************************************************************)
+(* FIRST TOUCH AFTER OPEN - an exhaustive family (plain breadth-first TLC, *)
+(* KvStoreGenFT.cfg; every reachable `Emit` prints one behaviour, and as   *)
+(* `hist` is part of the state no two behaviours are merged).              *)
+(*                                                                         *)
+(*   [prefix: batch; PrefixOps; commit; read everything; close/open]       *)
+(*   batch; op1; [op2]; commit; read everything; close/open; read all      *)
+(*                                                                         *)
+(* The prefix is either absent (fresh directory: the families do not exist *)
+(* yet) or commits a fixed content (S1:K1 = {E1,E2,E3}, S1:K2 = {E2},      *)
+(* W1:K1 with both value types; W2 and S2 are never written).  The open    *)
+(* before op1 is `quiet` (the harness reads nothing), so op1 is the FIRST  *)
+(* operation that touches its column in that session (FTFirstTouch), and   *)
+(* op2 the first one of its column unless it is op1's.  op1 ranges over    *)
+(* every write of the contract in both forms (directly on the write batch; *)
+(* staged in a serialization buffer which is then consumed - immediately   *)
+(* or, `late`, only after op2) and over get / scan; op2 over every write   *)
+(* in both forms (and, FT_OP2READS = 1, get / scan before the commit).     *)
+(* Columns, keys and value types range over the whole universe, elements   *)
+(* of op1 / op2 over the first FT_NE_OP ones, put writes the value 2.      *)
+(* Expected reads come from the reference as everywhere else; every event  *)
+(* carries `t`, the columns touched in the session so far (evidence).      *)
+(***************************************************************************)
+FTOpElems == {ElemNames[i] : i \in 1..atoi(IOEnv.FT_NE_OP)}
+FTOp2Reads == atoi(IOEnv.FT_OP2READS) = 1
+FTLate == atoi(IOEnv.FT_LATE) = 1
+
+Ins(c, key, e) == [k |-> "ins", c |-> c, key |-> key, x |-> e, val |-> 0]
+Put(c, key, vt, v) == [k |-> "put", c |-> c, key |-> key, x |-> vt, val |-> v]
+PrefixOps == <<Ins("S1", "K1", "E1"), Ins("S1", "K1", "E2"), Ins("S1", "K1", "E3"),
+               Ins("S1", "K2", "E2"), Put("W1", "K1", "V1", 1), Put("W1", "K1", "V2", 2)>>
+
+FTWrites == {o \in PutOps : o.val = 2} \cup DelOps
+            \cup {o \in InsOps \cup RemOps : o.x \in FTOpElems}
+
+(* record, go to phase `nc` (index `nw`) *)
+FRec(ev, nc, nw) ==
+    /\ hist' = Append(hist, ev @@ [t |-> touched])
+    /\ cls' = nc
+    /\ widx' = nw
+    /\ steps' = steps + 1
+    /\ UNCHANGED done
+
+FTInit ==
+    /\ Init
+    /\ hist = <<>>
+    /\ cls = "ft_start"
+    /\ widx = 0
+    /\ steps = 0
+    /\ done = FALSE
+
+(* get / scan as an event with the reference's expectation *)
+FTRead(nc) ==
+    \/ \E c \in WCols, key \in Keys, vt \in VTypes :
+          /\ Get(c)
+          /\ FRec([a |-> "get", c |-> c, key |-> key, vt |-> vt, exp |-> GetResult(c, key, vt)], nc, 0)
+    \/ \E c \in SCols, key \in Keys :
+          /\ Scan(c)
+          /\ FRec([a |-> "scan", c |-> c, key |-> key, exp |-> ScanResult(c, key)], nc, 0)
+
+FTNext ==
+    \* --- prefix -----------------------------------------------------------
+    \/ /\ cls = "ft_start"
+       /\ OpenBatch(1)
+       /\ \/ FRec([a |-> "batch", h |-> 1, prefix |-> "none"], "ft_op1", 0)
+          \/ FRec([a |-> "batch", h |-> 1, prefix |-> "content"], "ft_pre", 1)
+    \/ /\ cls = "ft_pre"
+       /\ BatchOp(1, PrefixOps[widx])
+       /\ FRec([a |-> "op", via |-> "wb", h |-> 1, op |-> PrefixOps[widx]],
+               IF widx < Len(PrefixOps) THEN "ft_pre" ELSE "ft_precommit",
+               IF widx < Len(PrefixOps) THEN widx + 1 ELSE 0)
+    \/ /\ cls = "ft_precommit"
+       /\ Commit(1)
+       /\ FRec([a |-> "commit", h |-> 1, q |-> TRUE, state |-> Dump(wide', sets')], "ft_presweep", 0)
+    \/ /\ cls = "ft_presweep"
+       /\ Sweep
+       /\ FRec([a |-> "sweep", state |-> Dump(wide, sets)], "ft_cold0", 0)
+    \/ /\ cls = "ft_cold0"
+       /\ Reopen
+       /\ FRec([a |-> "reopen", q |-> TRUE, state |-> Dump(wide, sets)], "ft_batch", 0)
+    \/ /\ cls = "ft_batch"
+       /\ OpenBatch(1)
+       /\ FRec([a |-> "batch", h |-> 1], "ft_op1", 0)
+    \* --- op1: the first touch ---------------------------------------------
+    \/ /\ cls = "ft_op1"
+       /\ \/ \E op \in FTWrites :
+                BatchOp(1, op) /\ FRec([a |-> "op", via |-> "wb", h |-> 1, op |-> op], "ft_op2", 0)
+          \/ OpenBuf(1) /\ FRec([a |-> "buf", h |-> 1], "ft_op1_sb", 0)
+          \/ FTRead("ft_op2")
+    \/ /\ cls = "ft_op1_sb"
+       /\ \E op \in FTWrites :
+             BufOp(1, op) /\ FRec([a |-> "op", via |-> "sb", h |-> 1, op |-> op], "ft_op1_cons", 0)
+    \/ /\ cls = "ft_op1_cons"
+       /\ \/ Consume(1, 1) /\ FRec([a |-> "consume", h |-> 1, s |-> 1], "ft_op2", 0)
+          \* late: op2 goes directly to the batch first, the buffer is consumed after it
+          \/ /\ FTLate
+             /\ \E op \in FTWrites :
+                   BatchOp(1, op) /\ FRec([a |-> "op", via |-> "wb", h |-> 1, op |-> op], "ft_late_cons", 0)
+    \/ /\ cls = "ft_late_cons"
+       /\ Consume(1, 1) /\ FRec([a |-> "consume", h |-> 1, s |-> 1], "ft_commit", 0)
+    \* --- op2 (optional) -----------------------------------------------------
+    \/ /\ cls = "ft_op2"
+       /\ \/ \E op \in FTWrites :
+                BatchOp(1, op) /\ FRec([a |-> "op", via |-> "wb", h |-> 1, op |-> op], "ft_commit", 0)
+          \/ OpenBuf(1) /\ FRec([a |-> "buf", h |-> 1], "ft_op2_sb", 0)
+          \/ /\ FTOp2Reads /\ batch[1].ops # <<>>
+             /\ FTRead("ft_commit")
+          \* no op2; a session that only read has nothing to commit
+          \/ /\ batch[1].ops # <<>>
+             /\ Commit(1)
+             /\ FRec([a |-> "commit", h |-> 1, q |-> TRUE, state |-> Dump(wide', sets')], "ft_sweep1", 0)
+    \/ /\ cls = "ft_op2_sb"
+       /\ \E op \in FTWrites :
+             BufOp(1, op) /\ FRec([a |-> "op", via |-> "sb", h |-> 1, op |-> op], "ft_op2_cons", 0)
+    \/ /\ cls = "ft_op2_cons"
+       /\ Consume(1, 1) /\ FRec([a |-> "consume", h |-> 1, s |-> 1], "ft_commit", 0)
+    \* --- commit; read everything; close/open; read everything ---------------
+    \/ /\ cls = "ft_commit"
+       /\ Commit(1)
+       /\ FRec([a |-> "commit", h |-> 1, q |-> TRUE, state |-> Dump(wide', sets')], "ft_sweep1", 0)
+    \/ /\ cls = "ft_sweep1"
+       /\ Sweep
+       /\ FRec([a |-> "sweep", state |-> Dump(wide, sets)], "ft_cold1", 0)
+    \/ /\ cls = "ft_cold1"
+       /\ Reopen
+       /\ FRec([a |-> "reopen", q |-> TRUE, state |-> Dump(wide, sets)], "ft_sweep2", 0)
+    \/ /\ cls = "ft_sweep2"
+       /\ Sweep
+       /\ FRec([a |-> "sweep", state |-> Dump(wide, sets)], "ft_emit", 0)
+    \/ /\ cls = "ft_emit" /\ ~done
+       /\ done' = TRUE
+       /\ PrintT(ToJson([nk |-> Cardinality(Keys), nv |-> Cardinality(VTypes),
+                         ne |-> Cardinality(Elems), ft |-> TRUE, events |-> hist,
+                         final |-> Dump(wide, sets)]))
+       /\ UNCHANGED <<vars, hist, cls, widx, steps>>
+
+FTSpec == FTInit /\ [][FTNext]_gvars
+
+(* what makes the family what it is: nothing has been touched in the       *)
+(* session when op1 is chosen - in particular no read since the open       *)
+FTFirstTouch == cls \in {"ft_op1", "ft_op1_sb", "ft_batch"} => touched = {}
+(* and a buffered op touches nothing before it is consumed *)
+FTBufferedUntouched == cls = "ft_op1_cons" => touched = {}
 =============================================================================
